@@ -86,6 +86,19 @@ class ResponseHandler(BaseProtocol, DataQueue[tuple[RawResponseMessage, StreamRe
             or self._payload_parser is not None
             or self._buffer
             or self._tail
+            or self._parser_has_leftover()
+        )
+
+    def _parser_has_leftover(self) -> bool:
+        """Bytes beyond the last complete response are sitting in the parser.
+
+        Whatever they are, they do not belong to a response anyone asked for,
+        so the connection must not carry another request. (Only the
+        pure-Python parser exposes what it has buffered.)
+        """
+        parser = self._parser
+        return parser is not None and bool(
+            getattr(parser, "_tail", b"") or getattr(parser, "_lines", None)
         )
 
     def force_close(self) -> None:
@@ -240,6 +253,12 @@ class ResponseHandler(BaseProtocol, DataQueue[tuple[RawResponseMessage, StreamRe
         max_field_size: int = 8190,
         max_headers: int = 128,
     ) -> None:
+        # The connection is being handed to a new request. Anything the peer
+        # sent while nobody was asking (a response queued while the connection
+        # idled in the pool, a partial line left in the old parser) is not an
+        # answer to that request and must never be taken for one.
+        stale = bool(self._buffer) or self._parser_has_leftover()
+
         self._skip_payload = skip_payload
 
         self._read_timeout = read_timeout
@@ -259,6 +278,13 @@ class ResponseHandler(BaseProtocol, DataQueue[tuple[RawResponseMessage, StreamRe
             max_field_size=max_field_size,
             max_headers=max_headers,
         )
+
+        if stale:
+            self._buffer.clear()
+            if self.transport is not None:
+                self.transport.close()
+            self.set_exception(ServerDisconnectedError())
+            return
 
         if self._tail:
             data, self._tail = self._tail, b""
